@@ -365,6 +365,12 @@ func checkMemfdSeal(c *Check) {
 		c.Cond(fileVal != nil && len(other) == 0, "3/seal", key+":only-the-copy-writes", pos, "nothing but the copy changes the file before it is sealed", "the memfd is also modified by "+strings.Join(other, ", ")+" before sealing: the sealed content is not exactly the bytes supplied")
 	}
 	c.Expect("3/seal", 9)
+	// nothing outside the configured tmpfs mounts can hold state between tenants: the container root is read-only
+	// in every configuration (C05.2), what covers a masked path is read-only (C05.4); and the sealed executable is
+	// not handed to the program as an open descriptor (scratch duplicates are close-on-exec, C06.2)
+	importObs(c, "C05", "C05.2/container-sequence", "5/root-read-only", func(o Obligation) bool { return strings.Contains(o.Key, "remount") })
+	importObs(c, "C05", "C05.4/mask-path", "6/mask-read-only", nil)
+	importObs(c, "C06", "C06.2/scratch-discipline", "7/sealed-copy-not-inherited", func(o Obligation) bool { return strings.HasPrefix(o.Key, "cloexec:") })
 }
 
 // directErrOf: block b is the immediate error branch of call ci.
